@@ -32,6 +32,9 @@ class HAProxyProtocolWrapper(policies.ProtocolWrapper):
         super().__init__(factory, wrappedProtocol)
         self._proxyInfo: Optional[_info.ProxyInfo] = None
         self._parser: Union[V2Parser, V1Parser, None] = None
+        # The first bytes of the connection, for as long as there are too few
+        # of them to tell which version of the PROXY protocol is in use.
+        self._undecided = b""
 
     def dataReceived(self, data: bytes) -> None:
         if self._proxyInfo is not None:
@@ -39,6 +42,8 @@ class HAProxyProtocolWrapper(policies.ProtocolWrapper):
 
         parser = self._parser
         if parser is None:
+            data = self._undecided + data
+            self._undecided = b""
             if (
                 len(data) >= 16
                 and data[:12] == V2Parser.PREFIX
@@ -47,6 +52,13 @@ class HAProxyProtocolWrapper(policies.ProtocolWrapper):
                 self._parser = parser = V2Parser()
             elif len(data) >= 8 and data[:5] == V1Parser.PROXYSTR:
                 self._parser = parser = V1Parser()
+            elif (len(data) < 16 and data[:12] == V2Parser.PREFIX[: len(data)]) or (
+                len(data) < 8 and data[:5] == V1Parser.PROXYSTR[: len(data)]
+            ):
+                # So far this is the beginning of a PROXY protocol signature,
+                # but the segment was too short to decide; wait for more.
+                self._undecided = data
+                return None
             else:
                 self.loseConnection()
                 return None
